@@ -19,6 +19,8 @@ type Ctx struct {
 	Tier string
 
 	switches []*model.TypeSwitch
+	grammar  *model.Grammar
+	gramErr  error
 	reach    map[string]map[*ssa.Function]*ssa.Function
 }
 
@@ -90,4 +92,46 @@ func fieldSelections(info *types.Info, n ast.Node, into map[*types.Var]bool) {
 		}
 		return true
 	})
+}
+
+// Grammar reads Numscript.g4 of the analysed repository (once).
+func (c *Ctx) Grammar() (*model.Grammar, error) {
+	if c.grammar == nil && c.gramErr == nil {
+		c.grammar, c.gramErr = model.ReadGrammar(c.P.Cfg.Repo)
+	}
+	return c.grammar, c.gramErr
+}
+
+// importClosure returns the packages importable (transitively) from the packages of the roots.
+func importClosure(roots []*ssa.Function) map[*types.Package]bool {
+	seen := map[*types.Package]bool{}
+	var visit func(p *types.Package)
+	visit = func(p *types.Package) {
+		if p == nil || seen[p] {
+			return
+		}
+		seen[p] = true
+		for _, q := range p.Imports() {
+			visit(q)
+		}
+	}
+	for _, r := range roots {
+		if r != nil && r.Pkg != nil {
+			visit(r.Pkg.Pkg)
+		}
+	}
+	return seen
+}
+
+func pkgOfFn(fn *ssa.Function) *types.Package {
+	for fn.Parent() != nil {
+		fn = fn.Parent()
+	}
+	if fn.Pkg != nil {
+		return fn.Pkg.Pkg
+	}
+	if fn.Origin() != nil && fn.Origin().Pkg != nil {
+		return fn.Origin().Pkg.Pkg
+	}
+	return nil
 }
